@@ -238,7 +238,8 @@ func (r *rtRun) genOp(rng *RNG, c *rtClient, cfg rtConfig) rtOp {
 	r.nextCtx++
 	op := rtOp{Ctx: r.nextCtx}
 	val := func() int {
-		k := rng.Intn(1000) * 4
+		// distinct per operation (the oracles pair a report with the monitor's outcome by source and value)
+		k := (r.nextCtx*8 + rng.Intn(8)) * 4
 		switch x := rng.Intn(100); {
 		case x < 62:
 			return k // good
